@@ -14,6 +14,7 @@
 (***************************************************************************)
 EXTENDS Integers, Sequences, FiniteSets
 
+CONSTANTS Defects      \* subset of {"FirstMidpointOutside", "StopWhenMidpointSmall"}: the pinned tree's behaviour
 VARIABLES cfg, left, right, fa, middle, n, stat, evals, result
 vars == <<cfg, left, right, fa, middle, n, stat, evals, result>>
 (* cfg = [lo, hi, roots (set of half-unit positions), sign (1/-1), tol (units), nmax] *)
@@ -32,7 +33,9 @@ Init(c) ==
   /\ fa = F(c.lo, c)
   /\ IF c.lo >= c.hi \/ ProductPositive(F(c.lo, c), F(c.hi, c))
        THEN stat = "err" /\ middle = c.lo /\ evals = (IF c.lo >= c.hi THEN {} ELSE {c.lo, c.hi})
-       ELSE stat = "run" /\ middle = c.lo + (c.hi - c.lo) \div 2 /\ evals = {c.lo, c.hi}
+       ELSE /\ evals = {c.lo, c.hi}
+            /\ middle = (IF "FirstMidpointOutside" \in Defects THEN c.lo + (c.lo - c.hi) \div 2 ELSE c.lo + (c.hi - c.lo) \div 2)
+            /\ stat = "run"
 
 Iterate ==
   /\ stat = "run"
@@ -44,7 +47,7 @@ Iterate ==
           IN /\ evals' = evals \cup {middle}
              /\ left' = l2 /\ right' = r2
              /\ fa' = IF ProductPositive(fp, fa) THEN fp ELSE fa
-             /\ IF Abs(middle - mnew) <= cfg.tol
+             /\ IF Abs(middle - mnew) <= cfg.tol \/ ("StopWhenMidpointSmall" \in Defects /\ Abs(mnew) < cfg.tol)
                   THEN stat' = "ok" /\ result' = mnew /\ UNCHANGED <<middle, n>>
                   ELSE middle' = mnew /\ n' = n + 1 /\ UNCHANGED <<stat, result>>
              /\ UNCHANGED cfg
